@@ -15,10 +15,10 @@ P = {
    "Generated histories on tight volumes; an independent structural checker (chains, cross-links, sizes, names, dot entries, end marker) runs on the raw image plus pending open-file state (hook H2) after every API call, successful or not.",
    "Trusts the independent checker and hook H2 (read-only)."),
  "C04": ("exploration", "fsx", "4.4", "stateful PBT with per-call write-log classification",
-   "Every device write of every generated call is diffed against its pre-image and classified by region and ownership using an independently parsed layout (MBR/boot/reserved/FAT entry/directory slot/file byte range/new cluster).",
+   "Every device write of every generated call is diffed against its pre-image and classified by region and ownership using an independently parsed layout (MBR/boot/reserved/FAT entry/directory slot/file byte range/new cluster). Second stage: the same classifier on histories with one failing device call (full rules while the medium is consistent, region rules after a mutating call was cut short).",
    "Trusts the write log of the simulated device and the independent layout parser."),
  "C05": ("exploration", "fsx+fill", "4.5", "stateful PBT: FAT accounting invariant + capacity fill/refill cycles",
-   "In-use FAT entries == reachable chains whenever no file is open; fill-to-full / free / refill cycles check that out-of-space errors are not premature (vs. a FAT scan before the call), that accepted bytes read back and that capacity is identical in every cycle.",
+   "In-use FAT entries == reachable chains whenever no file is open; out-of-space errors must not be premature (vs. a FAT scan before the call); fill-to-full / release / refill cycles check that the bytes accepted equal the free capacity in every cycle, that they read back and that delete/truncate return every cluster.",
    "Trusts the independent FAT scan."),
  "C06": ("exploration", "dirgen", "4.6", "PBT over byte-level directory contents, differential against independent reader",
    "Byte-level generated directories (live/deleted/LFN/label slots, multi-cluster fragmented chains, FAT16 roots, FAT32 roots anywhere) listed and looked up through the crate and through the independent reader; then after create/delete/mkdir histories.",
@@ -42,10 +42,10 @@ P = {
    "Card kind x CRC x capacity x timings x read/write sequences; card memory == model everywhere; multi-block == singles; capacity == CSD formula for the register's structure version.",
    "Trusts the simulated card (independent command table, CRCs and CSD encoders)."),
  "C13": ("fault_enumeration", "sdsim", "5.2", "PBT sequences x enumerated bit flips / dead / busy / garbage positions",
-   "Every single-bit flip of a data block + CRC, bursts, wrong tokens, rejected writes, and dead/busy/garbage cards from every byte position; Ok only with correct data; SPI byte budget per call enforced by the card.",
-   "Byte budgets derived from the driver's documented retry counts with a 2x margin."),
+   "Every single-bit flip of a data block + CRC (enumerated), every bit of the CSD block with CRC off (enumerated), bursts, wrong tokens, rejected writes, wrong CMD8 echo, SPI errors and dead/busy/garbage cards from generated byte positions; Ok only with correct data; Err where the property requires it; recovery after power-cycle; SPI byte budget per driver call enforced by the card.",
+   "Termination bound: 20,000,000 SPI bytes per driver call (far above what the driver's documented retry budgets allow)."),
  "C14": ("exploration", "sdsim", "5.3", "PBT with protocol-checking simulated card (monitor)",
-   "All MOSI bytes of all generated runs checked against SPI-mode rules: frame, CRC-7, busy, ACMD prefix, init order, data tokens, 512+2 framing, stop tokens.",
+   "All MOSI bytes of all generated fault-free runs checked against SPI-mode rules: frame, CRC-7, busy, ACMD prefix, init order, data tokens, 512+2 framing, stop tokens.",
    "Card modelled as a byte-stream peer that ignores chip-select framing."),
  "C15": ("exploration", "mount", "4.12", "PBT over valid layouts (independent formatter) + boundary/mutated/random sectors",
    "Valid: files placed by the independent formatter are read back through the crate for all BPB parameter combinations; invalid: field boundary values, mutations and random sectors must yield Ok or Err without panic (overflow checks on).",
@@ -57,7 +57,7 @@ P = {
    "Fragment sequences over code-unit classes and buffer sizes 0..=780 against the lossy decoding; directories with well-formed/broken runs against the specification's association rule.",
    "Reference decoding = std's from_utf16_lossy."),
  "C18": ("exploration", "codec", "6.2", "exhaustive enumeration (timestamps, short strings) + PBT round-trips against spec byte offsets and a reference 8.3 grammar",
-   "All date x time field pairs per field; calendar range; entry codec via hook H1 against specification offsets; all strings up to length 3 over a 44-symbol alphabet plus generated longer ones against a reference grammar.",
+   "All date x time field pairs per field; calendar range; entry codec via hook H1 against specification offsets; all strings up to length 3 over a 50-symbol alphabet plus generated longer ones against a reference grammar.",
    "Reference grammar from the FAT specification and the crate's documentation."),
  "C19": ("exploration", "crc", "5.4", "exhaustive enumeration (len 0..3, basis messages) + PBT against bit-serial polynomial division",
    "All messages of length 0..3, all single-bit basis messages of lengths 5/16/512, random messages, append-CRC-gives-zero, single/double/burst error detection on 512-byte blocks.",
